@@ -128,6 +128,8 @@ def _tagger(x: Any) -> Any:
     import pytato as pt
     from vf.vtags import VTag
     _TAGGER_CALLS.append(x)
+    if isinstance(x, pt.NamedArray):
+        return x             # (named results carry no tags of their own)
     return x.tagged(VTag(5)) if isinstance(x, pt.Array) else x
 
 
